@@ -67,6 +67,13 @@ def conv(tlc_script, ids, i):
             ops.append({"o": "wop", "k": "setemit", "s": 0, "b": bool(o["b"])})
         elif k == "slice":
             ops.append({"o": "wop", "k": "slice", "s": 0})
+        elif k == "restrict":
+            fm = wm = 0
+            for x in o["fm"]:
+                fm |= 1 << (x - 1)
+            for x in o["wr"]:
+                wm |= 1 << (x - 1)
+            ops.append({"o": "wop", "k": "restrict", "s": 0, "v": ["mut_join", "mut_lend", "mut_par"][rot % 3], "sel": fm, "wsel": wm})
         elif k == "clear_f":
             ops.append({"o": "fault", "k": o["k"], "op": {"o": "wop", "k": "clear", "s": 0}})
         elif k == "delete_f":
@@ -108,7 +115,7 @@ PROP_SUITES = {
     "C04": ["smc_plain", "smc_far", "smc_tracked", "kind_churn", "rand_store"],
     "C08": ["smc_plain", "smc_far", "kind_churn", "rand_store", "rand_tracked", "world:rand_mixed"],
     "C12": ["smc_tracked", "kind_churn", "rand_tracked", "rand_world_tracked"],
-    "C13": ["rand_store", "rand_tracked", "world:mc_store"],
+    "C13": ["smc_plain", "rand_store", "rand_tracked", "world:mc_store"],
 }
 
 TID0 = {"smc_plain": 11000000, "smc_tracked": 12000000, "smc_far": 13000000, "rand_store": 14000000,
